@@ -207,3 +207,32 @@ impl Drop for Installed {
         }
     }
 }
+
+
+// ---------------------------------------------------------------------------
+// crash triage: when PLSIM_TRACE names a file, every inner case is written there (one JSON line,
+// flushed) *before* it is executed, so that after a process abort the last line is the culprit
+
+static TRACE_ON: std::sync::atomic::AtomicBool = std::sync::atomic::AtomicBool::new(false);
+static TRACE_FILE: std::sync::Mutex<Option<std::fs::File>> = std::sync::Mutex::new(None);
+
+pub fn init_trace() {
+    if let Ok(p) = std::env::var("PLSIM_TRACE") {
+        if let Ok(f) = std::fs::File::create(&p) {
+            *TRACE_FILE.lock().unwrap() = Some(f);
+            TRACE_ON.store(true, Ordering::Relaxed);
+        }
+    }
+}
+
+#[inline]
+pub fn trace_case(f: impl FnOnce() -> serde_json::Value) {
+    if TRACE_ON.load(Ordering::Relaxed) {
+        use std::io::Write;
+        let line = f().to_string();
+        if let Some(file) = TRACE_FILE.lock().unwrap().as_mut() {
+            let _ = writeln!(file, "{line}");
+            let _ = file.flush();
+        }
+    }
+}
